@@ -87,7 +87,7 @@ def element_kinds(fn):
     kinds = {}
 
     def xpath_kind(it):
-        if isinstance(it, ast.Call) and isinstance(it.func, ast.Attribute) and it.func.attr in ('xpath', 'findall', 'iter', 'iterfind') and it.args \
+        if isinstance(it, ast.Call) and isinstance(it.func, ast.Attribute) and it.func.attr in ('xpath', 'findall', 'iter', 'iterfind', 'iterchildren', 'iterdescendants', 'find') and it.args \
                 and isinstance(it.args[0], ast.Constant) and isinstance(it.args[0].value, str):
             last = it.args[0].value.rstrip('/').split('/')[-1]
             return last if last.isidentifier() else None
@@ -188,8 +188,10 @@ def r_candc(repo, rep, R='R15.1'):
     rx_nodes = scope_nodes(rm, rx)
     rtags = {n.comparators[0].value for n in rx_nodes if isinstance(n, ast.Compare) and src(n.left).endswith('.tag')
              and isinstance(n.comparators[0], ast.Constant)}
-    xp = {n.args[0].value for n in rx_nodes if isinstance(n, ast.Call) and isinstance(n.func, ast.Attribute) and n.func.attr == 'xpath'
-          and n.args and isinstance(n.args[0], ast.Constant)}
+    # elements selected by name: xpath('ccg') or the ElementTree lookups findall / iterchildren / iter / iterfind('ccg')
+    xp = {n.args[0].value.split('/')[-1] for n in rx_nodes if isinstance(n, ast.Call) and isinstance(n.func, ast.Attribute)
+          and n.func.attr in ('xpath', 'findall', 'iterchildren', 'iter', 'iterfind', 'iterdescendants')
+          and n.args and isinstance(n.args[0], ast.Constant) and isinstance(n.args[0].value, str)}
     rep.check(tags == {'ccg', 'rule', 'lf'} and rtags == {'rule', 'lf'} and 'ccg' in xp, R, w, 'candc:tags',
               'writer tags %s = tags the reader dispatches on %s + %s' % (sorted(tags), sorted(rtags), sorted(xp)),
               'writer tags %s, reader dispatches on %s and selects %s' % (sorted(tags), sorted(rtags), sorted(xp)))
